@@ -264,6 +264,9 @@ pub fn run(ctx: &Ctx) {
     let groups: Vec<Vec<&str>> = vec![
         vec!["x // note\n + y", "x // note + y", "x // note\r\n + y", "x + y"],
         vec!["[x, // first\n y]", "[x, // first y]", "[x, y]"],
+        // only `//` starts a comment, and its text is free: brackets, quotes and `/*` inside it mean nothing
+        vec!["a /* b */ + c", "a /*b*/ + c", "a + c", "[i1, /* x */ i2]", "/**/ a", "a /* unterminated", "a / b * c", "a /* b\n */ + c"],
+        vec!["// 1) adults only\nage >= i18", "a + // (see below\n b * c", "a // \"\n + b", "[a // ]\n, b]", "a // it's\n + \"x\"", "age >= i18", "a + b * c"],
         vec!["x contains \"a b\"", "x contains \"a  b\"", "x contains \"a\tb\"", "x contains \"ab\""],
         vec!["a //\n b", "a // b", "a /\n/ b", "a / / b"],
         vec!["i1 + i 2", "i1 + i2", "i 1 + i2", "i1+i2"],
